@@ -16,6 +16,11 @@
  * header; total_out = hdr + n + 5*blocks; counters consistent; no arithmetic wrap (CBMC overflow checks +
  * the exact formula).
  */
+#ifndef REPLAY
+/* speed: skip the x86 intrinsic headers (13 s of goto-cc); igzip.c uses none (a use would not compile) */
+#define _X86INTRIN_H_INCLUDED 1
+#define _IMMINTRIN_H_INCLUDED 1
+#endif
 #include "verif.h"
 #include <stdlib.h>
 #include <string.h>
@@ -44,14 +49,24 @@ static uint32_t g_hdst[MAXBLK], g_hlen[MAXBLK];
 static uint8_t g_hbytes[MAXBLK][8];
 static int g_bad;
 
+#ifndef REPLAY
+#define IN_OBJECT(p, base, len) (__CPROVER_POINTER_OBJECT(p) == __CPROVER_POINTER_OBJECT(base))
+#else
+#define IN_OBJECT(p, base, len) ((p) >= (base) && (p) <= (base) + (len))
+#endif
+
+/* elem = sizeof(*src) at the call site: 8 for the block header (a local uint64_t), 1 for byte buffers; it is
+ * a compile-time constant, so symbolic execution follows exactly one branch per call site and never
+ * dereferences the 200 KB input object */
 static void *
-rec_memcpy(void *dst, const void *src, size_t len)
+rec_memcpy(void *dst, const void *src, size_t len, size_t elem)
 {
         const uint8_t *s = (const uint8_t *) src;
         uint8_t *d = (uint8_t *) dst;
-        if (s >= g_in && s <= g_in + g_in_len) { /* payload */
+        if (elem == 1) { /* payload */
+                VASSERT(IN_OBJECT(s, g_in, g_in_len), "byte copy reads from the input buffer");
                 size_t so = (size_t) (s - g_in), dof = (size_t) (d - g_out);
-                VASSERT(d >= g_out && dof <= g_out_len && len <= g_out_len - dof, "payload copy destination inside the output buffer");
+                VASSERT(IN_OBJECT(d, g_out, g_out_len) && dof <= g_out_len && len <= g_out_len - dof, "payload copy destination inside the output buffer");
                 VASSERT(len <= g_in_len - so, "payload copy source inside the input buffer");
                 if (g_ncopy < MAXBLK) {
                         g_dst[g_ncopy] = (uint32_t) dof;
@@ -63,7 +78,7 @@ rec_memcpy(void *dst, const void *src, size_t len)
         } else { /* block header written from a local uint64_t */
                 size_t dof = (size_t) (d - g_out);
                 VASSERT(len <= 8, "non-payload copy is header sized");
-                VASSERT(d >= g_out && dof <= g_out_len && len <= g_out_len - dof, "header copy destination inside the output buffer");
+                VASSERT(IN_OBJECT(d, g_out, g_out_len) && dof <= g_out_len && len <= g_out_len - dof, "header copy destination inside the output buffer");
                 if (g_nhdr < MAXBLK) {
                         g_hdst[g_nhdr] = (uint32_t) dof;
                         g_hlen[g_nhdr] = (uint32_t) len;
@@ -86,7 +101,7 @@ wmemset(wchar_t *s, wchar_t c, size_t n)
 }
 #endif
 
-#define memcpy rec_memcpy
+#define memcpy(d, s, n) rec_memcpy((d), (s), (n), sizeof(*(s)))
 #include "igzip.c"
 #undef memcpy
 
